@@ -30,18 +30,18 @@ import vlib
 
 LEVEL = "model_checking"
 META = {
-    "text": "TLC exhausts spec/Concurrency.tla (lock-annotated steps of VM lines, Store.Gc, Store.Add, four exporters over searchMu/"
-            "insertMu/metric RWMutex) for all 28 actor pairs and two triples: NoRace, NoLostIncrement, ExportedValueExisted, no lock "
+    "text": "TLC exhausts spec/Concurrency.tla (lock-annotated steps of VM lines, Store.Gc, Store.Add, five exporters over searchMu/"
+            "insertMu/metric RWMutex) for all 36 actor pairs and two triples: NoRace, NoLostIncrement, ExportedValueExisted, no lock "
             "cycle; the real actors run concurrently under the Go race detector with seeded perturbation for every pair, each report is "
             "mapped to the model's (actor, site) pairs and must be predicted by an open deviation; increment/export event logs of real "
             "runs are validated by TraceConcurrency.tla.",
     "note": "The race detector only reports races that occur in the schedules run (no false positives, possible misses); the model's "
-            "exhaustiveness is over the lock protocol as modelled, the real schedules are sampled. Push exporters (collectd/graphite/"
-            "statsd sockets) share writeSocketMetrics' locking with the graphite handler and are not run separately.",
+            "exhaustiveness is over the lock protocol as modelled, the real schedules are sampled. The push exporters (collectd/graphite/"
+            "statsd) are run through writeSocketMetrics with a discarding connection, not through a socket.",
     "technique": "TLA+ lockset model exhaustively checked by TLC + real goroutines under go build -race with seeded perturbation, reports classified against the model; TLC trace validation of atomicity logs (direction B)",
     "design_ref": "DESIGN.md 5/C11",
 }
-ACTORS = ["vm", "vm2", "gc", "reload", "prom", "varz", "graphite", "json"]
+ACTORS = ["vm", "vm2", "gc", "reload", "prom", "varz", "graphite", "json", "push"]
 DEVS = ["DEV_GcReadsLabelValuesUnlocked", "DEV_AddIteratesLabelValuesUnlocked", "DEV_JSONMarshalsMetricUnlocked"]
 INVS = ["LockOK", "NoRace", "NoLostIncrement", "ExportedValueExisted"]
 PAIRS = [list(p) for p in itertools.combinations(ACTORS, 2)]
@@ -105,6 +105,7 @@ SITES = [  # first matching frame, scanning the access stack from the top, names
 ACTOR_FRAMES = [
     ("main.actorVM2", "vm2"), ("main.actorVM", "vm"), ("main.actorGc", "gc"), ("main.actorReload", "reload"),
     ("main.actorProm", "prom"), ("main.actorVarz", "varz"), ("main.actorGraphite", "graphite"), ("main.actorJSON", "json"),
+    ("main.actorPush", "push"), ("exporter.(*Exporter).writeSocketMetrics", "push"),
     ("exporter.(*Exporter).Collect", "prom"), ("exporter.(*Exporter).HandleVarz", "varz"),
     ("exporter.(*Exporter).HandleGraphite", "graphite"), ("exporter.(*Exporter).HandleJSON", "json"),
     ("metrics.(*Store).Gc", "gc"), ("metrics.(*Store).Add", "reload"), ("vm.(*VM).", "vm"),
@@ -140,7 +141,7 @@ def parse_reports(text):
             actor = next((a for fr in whole for pat, a in ACTOR_FRAMES if pat in fr), None)
             # main.actorX on the stack wins over the generic package-level patterns
             for fr in whole:
-                for pat, a in ACTOR_FRAMES[:8]:
+                for pat, a in ACTOR_FRAMES[:9]:
                     if pat in fr:
                         actor = a
                         break
@@ -299,7 +300,7 @@ def run(ctx):
     ctx.cov["distinct_nontrivial"] = len(seen) + sum(1 for t in traces for e in t if e["ev"] == "exp.value" and 0 < e["v"])
     ctx.cov["exhaustive"] = True
     ctx.cov["rule"] = ("model: all interleavings of every actor pair and two triples; real code: every actor pair, two triples and all "
-                       "eight actors together run under -race for several seeded iterations; non-trivial = distinct (actor, site) race "
+                       "nine actors together run under -race for several seeded iterations; non-trivial = distinct (actor, site) race "
                        "pairs reported by the detector plus exports that carried a value > 0 while increments were in flight")
     ctx.cov["constants"] = {"actors": ACTORS, "pairs": len(PAIRS), "race_reports": len(reps),
                             "distinct_reported_pairs": sorted(sorted(list(k)) for k in seen),
